@@ -67,6 +67,8 @@ type translator struct {
 	done     map[string]string // function -> "" (ok) or reason
 	out      map[string]string // function -> Lean text of the definition
 	deps     map[string][]string
+	writes   map[string][][2]string // function -> (target, origin) of every statement that writes through a slice
+	slicePar map[string][]string    // function -> its parameters of slice type
 }
 
 type fnTr struct {
@@ -78,6 +80,7 @@ type fnTr struct {
 	noAlias map[string]bool   // make-created variables that have been mutated: may not be aliased
 	order   map[string]int    // variable -> rank of its declaration (loop state is listed in this order, so renaming is harmless)
 	gates   []string          // definitions of the size-gate conditions of this function
+	writes  [][2]string       // (target, origin) of the statements that write through a slice
 	tmp     int
 	deps    map[string]bool
 }
@@ -781,6 +784,12 @@ func (f *fnTr) method(c *ast.CallExpr, se *ast.SelectorExpr, want string) tval {
 			if id, ok := c.Args[0].(*ast.Ident); !ok || id.Name != "nil" {
 				p, a := f.args(c, []string{"[]byte"})
 				pre, arg = p, a[0].term
+				// Sum(b) appends to b: it may write into the spare capacity of b's backing array
+				if id, ok := c.Args[0].(*ast.Ident); ok {
+					f.writes = append(f.writes, [2]string{id.Name + " (appended to by Sum)", f.origin[id.Name]})
+				} else if !a[0].fresh {
+					f.writes = append(f.writes, [2]string{"an expression (appended to by Sum)", "unknown"})
+				}
 			}
 			return tval{pre: append(recv.pre, pre...), term: "(Go.hashSum W " + recv.term + " " + arg + ")", typ: "[]byte", fresh: true}
 		}
@@ -801,6 +810,7 @@ func (f *fnTr) method(c *ast.CallExpr, se *ast.SelectorExpr, want string) tval {
 				f.bad(c, "FillBytes into a slice that a variable refers to")
 			}
 			t := f.fresh()
+			f.writes = append(f.writes, [2]string{"the argument of FillBytes", "fresh"})
 			pre = append(append(recv.pre, pre...), fmt.Sprintf("Go.bind (Go.bigFillBytes %s %s) fun %s =>", recv.term, a[0].term, t))
 			return tval{pre: pre, term: t, typ: "[]byte", fresh: true}
 		}
@@ -1356,6 +1366,7 @@ func (f *fnTr) assign(x *ast.AssignStmt, em *emitter) {
 		}
 		em.add(i.pre...)
 		em.add(v.pre...)
+		f.writes = append(f.writes, [2]string{id.Name, f.origin[id.Name]})
 		em.add(fmt.Sprintf("Go.bind (Go.setStrs %s %s %s) fun %s =>", leanId(id.Name), i.term, v.term, leanId(id.Name)))
 	default:
 		f.bad(x, "assignment to %T", x.Lhs[0])
@@ -1393,6 +1404,7 @@ func (f *fnTr) ifStmt(x *ast.IfStmt, em *emitter, inLoop bool) bool {
 									if where, mut := f.t.assigned["cryptoRander"]; mut {
 										f.bad(x, "the source variable cryptoRander is assigned in %s", where)
 									}
+									f.writes = append(f.writes, [2]string{buf.Name, f.origin[buf.Name]})
 									em.add(fmt.Sprintf("Go.bind (Go.readFull %s) fun %s =>", leanId(buf.Name), leanId(buf.Name)))
 									return false
 								}
@@ -1842,6 +1854,13 @@ func (t *translator) translate(name string) (why string) {
 	}
 	sort.Strings(deps)
 	t.deps[name] = deps
+	t.writes[name] = f.writes
+	for v, o := range f.origin {
+		if o == "param" && (f.vars[v] == "[]byte" || f.vars[v] == "[]string") {
+			t.slicePar[name] = append(t.slicePar[name], v)
+		}
+	}
+	sort.Strings(t.slicePar[name])
 	t.done[name] = ""
 	return ""
 }
@@ -1849,7 +1868,8 @@ func (t *translator) translate(name string) (why string) {
 // newTranslator collects the package-level facts the function translation needs.
 func newTranslator(fset *token.FileSet, files map[string]*ast.File, langConsts []string, problems *[]string) *translator {
 	t := &translator{tables: map[string]bool{}, strConsts: map[string]*string{},fset: fset, files: files, globals: map[string]global{}, funcs: map[string]*funcSig{}, langCons: map[string]bool{},
-		assigned: map[string]string{}, done: map[string]string{}, out: map[string]string{}, deps: map[string][]string{}}
+		assigned: map[string]string{}, done: map[string]string{}, out: map[string]string{}, deps: map[string][]string{},
+		writes: map[string][][2]string{}, slicePar: map[string][]string{}}
 	for _, c := range langConsts {
 		t.langCons[c] = true
 		t.globals[c] = global{typ: "Language", term: "Gen.v" + c}
@@ -2201,6 +2221,44 @@ func (t *translator) codeLean(roots []string) (map[string]string, map[string]str
 		}
 		fb.WriteString("\nend Bip39V.Gen.Code\n")
 		gen[fileName] = fb.String()
+	}
+	// every write through a slice in the translated functions, and their slice parameters (C13: the
+	// caller's slices are never written)
+	{
+		var wb strings.Builder
+		wb.WriteString("-- GENERATED by go/cmd/extract (translate.go): the statements of the translated functions that write through a slice — do not edit\n")
+		wb.WriteString("namespace Bip39V.Gen.Code\n\n")
+		wb.WriteString("/-- (function, target, origin of the target): `make` = a buffer the function allocated itself with make,\n`fresh` = a value no variable refers to (`make(…)` written in place as an argument), anything else = not its own -/\n")
+		wb.WriteString("def sliceWrites : List (String × String × String) := [")
+		first := true
+		for _, n := range all {
+			if why, tried := t.done[n]; !tried || why != "" {
+				continue
+			}
+			for _, w := range t.writes[n] {
+				if !first {
+					wb.WriteString(", ")
+				}
+				first = false
+				fmt.Fprintf(&wb, "(%q, %q, %q)", n, w[0], w[1])
+			}
+		}
+		wb.WriteString("]\n\n/-- (function, parameter): the parameters of slice type -/\ndef sliceParams : List (String × String) := [")
+		first = true
+		for _, n := range all {
+			if why, tried := t.done[n]; !tried || why != "" {
+				continue
+			}
+			for _, v := range t.slicePar[n] {
+				if !first {
+					wb.WriteString(", ")
+				}
+				first = false
+				fmt.Fprintf(&wb, "(%q, %q)", n, v)
+			}
+		}
+		wb.WriteString("]\n\nend Bip39V.Gen.Code\n")
+		gen["Code/Writes.lean"] = wb.String()
 	}
 	return gen, status
 }
